@@ -2,14 +2,17 @@ package main
 
 import (
 	"bufio"
+	"bytes"
 	"encoding/json"
 	"fmt"
+	"io"
 	"math/rand"
 	"net"
 	"os"
 	"os/signal"
 	"path/filepath"
 	"sort"
+	"strconv"
 	"strings"
 	"sync"
 	"sync/atomic"
@@ -29,6 +32,12 @@ func init() {
 	gen.RegisterOp("c05", "run", func(c *gen.Ctx, raw json.RawMessage) any {
 		return c05Run(c, gen.Into[c05In](raw))
 	})
+	// the same operation under a second name for the process-fate scenarios (a client that breaks
+	// down mid-run, servers that are slow to stop, servers that read their input to its end): their
+	// inputs are fixed small scenarios, not to be shrunk (every re-run costs seconds)
+	gen.RegisterOp("c05", "fate", func(c *gen.Ctx, raw json.RawMessage) any {
+		return c05Run(c, gen.Into[c05In](raw))
+	})
 }
 
 // ---- recording peers ----
@@ -44,8 +53,18 @@ func c05Log(dir, file string, rec map[string]any) {
 	f.Close()
 }
 
-// c05Peer implements `verifharness c05peer server <logdir> <exitDelayMs> <behaviour>` and
-// `verifharness c05peer client <logdir> <maxLatencyMs>`.
+// c05Peer implements `verifharness c05peer server <logdir> <exitDelayMs[,exitDelayMs…]> <behaviour>` and
+// `verifharness c05peer client <logdir> <maxLatencyMs> [<stopAfter> <how>]`.
+//
+// server: with several exit delays the k-th server process started in this log directory (k claimed
+// by creating the file seq-k exclusively) takes delay number k mod len: servers running side by side
+// need different times to stop after SIGTERM, whatever the order in which the runner visits the
+// server instances.  behaviour eof: the server reads its input to its END before it decodes the
+// request and answers (ok: it reads exactly the one length-prefixed message).
+//
+// client: after its stopAfter-th answer (0: before reading anything) the client breaks down: how =
+// unknown (a response for a test name that was never requested, then exit), dup (the last response
+// once more, then exit), garbage (bytes that are no response, then exit), exit0 / exit3.
 func c05Peer(args []string) int {
 	if len(args) < 2 {
 		return 2
@@ -55,8 +74,25 @@ func c05Peer(args []string) int {
 	case "server":
 		var delay int
 		behaviour := "ok"
+		seq := 0
 		if len(args) > 2 {
-			fmt.Sscan(args[2], &delay)
+			var delays []int
+			for _, f := range strings.Split(args[2], ",") {
+				d, _ := strconv.Atoi(f)
+				delays = append(delays, d)
+			}
+			if len(delays) > 1 {
+				for ; seq < 10000; seq++ {
+					f, err := os.OpenFile(filepath.Join(dir, fmt.Sprintf("seq-%d", seq)), os.O_CREATE|os.O_EXCL|os.O_WRONLY, 0o644)
+					if err == nil {
+						f.Close()
+						break
+					}
+				}
+			}
+			if len(delays) > 0 {
+				delay = delays[seq%len(delays)]
+			}
 		}
 		if len(args) > 3 {
 			behaviour = args[3]
@@ -64,7 +100,17 @@ func c05Peer(args []string) int {
 		sig := make(chan os.Signal, 1)
 		signal.Notify(sig, syscall.SIGTERM, syscall.SIGINT)
 		var req conformancev1.ServerCompatRequest
-		if err := internal.ReadDelimitedMessage(os.Stdin, &req, "runner", 20*time.Second, 1<<20); err != nil {
+		if behaviour == "eof" {
+			// a perfectly valid way to read the single message: everything up to the end of the input
+			all, err := io.ReadAll(os.Stdin)
+			if err == nil {
+				err = internal.ReadDelimitedMessage(bytes.NewReader(all), &req, "runner", 20*time.Second, 1<<20)
+			}
+			if err != nil {
+				fmt.Fprintln(os.Stderr, "fake server: read request to EOF:", err)
+				return 1
+			}
+		} else if err := internal.ReadDelimitedMessage(os.Stdin, &req, "runner", 20*time.Second, 1<<20); err != nil {
 			fmt.Fprintln(os.Stderr, "fake server: read request:", err)
 			return 1
 		}
@@ -75,7 +121,7 @@ func c05Peer(args []string) int {
 		port := ln.Addr().(*net.TCPAddr).Port
 		file := fmt.Sprintf("srv-%d.jsonl", os.Getpid())
 		c05Log(dir, file, map[string]any{"ev": "start", "pid": os.Getpid(), "port": port, "proto": int(req.Protocol), "ver": int(req.HttpVersion),
-			"tls": req.UseTls, "certs": len(req.ClientTlsCert) > 0, "hasServerCreds": req.ServerCreds != nil, "behaviour": behaviour})
+			"tls": req.UseTls, "certs": len(req.ClientTlsCert) > 0, "hasServerCreds": req.ServerCreds != nil, "behaviour": behaviour, "seq": seq, "delay": delay})
 		switch behaviour {
 		case "garbage":
 			os.Stdout.Write([]byte{0, 0, 0, 3, 0xff, 0xff, 0xff})
@@ -99,10 +145,39 @@ func c05Peer(args []string) int {
 		if len(args) > 2 {
 			fmt.Sscan(args[2], &maxLat)
 		}
+		stopAfter, how := -1, ""
+		if len(args) > 4 {
+			stopAfter, _ = strconv.Atoi(args[3])
+			how = args[4]
+		}
 		in := bufio.NewReader(os.Stdin)
 		var wg sync.WaitGroup
 		var mu sync.Mutex
 		file := fmt.Sprintf("cli-%d.jsonl", os.Getpid())
+		written := 0
+		var last *conformancev1.ClientCompatResponse
+		// breakdown is called with mu held and does not return
+		breakdown := func() {
+			c05Log(dir, file, map[string]any{"ev": "breakdown", "how": how, "after": written})
+			switch how {
+			case "unknown":
+				internal.WriteDelimitedMessage(os.Stdout, &conformancev1.ClientCompatResponse{TestName: "no/such/test case",
+					Result: &conformancev1.ClientCompatResponse_Error{Error: &conformancev1.ClientErrorResult{Message: "recording client: breaking down"}}})
+			case "dup":
+				if last != nil {
+					internal.WriteDelimitedMessage(os.Stdout, last)
+				}
+			case "garbage":
+				os.Stdout.Write([]byte{0, 0, 0, 3, 0xff, 0xff, 0xff})
+			case "exit3":
+				os.Exit(3)
+			}
+			os.Exit(0)
+		}
+		if stopAfter == 0 {
+			mu.Lock()
+			breakdown()
+		}
 		for {
 			var req conformancev1.ClientCompatRequest
 			if err := internal.ReadDelimitedMessage(in, &req, "runner", time.Hour, 16<<20); err != nil {
@@ -127,8 +202,13 @@ func c05Peer(args []string) int {
 				}
 				mu.Lock()
 				defer mu.Unlock()
-				internal.WriteDelimitedMessage(os.Stdout, &conformancev1.ClientCompatResponse{TestName: name,
-					Result: &conformancev1.ClientCompatResponse_Error{Error: &conformancev1.ClientErrorResult{Message: "recording client: not executed"}}})
+				last = &conformancev1.ClientCompatResponse{TestName: name,
+					Result: &conformancev1.ClientCompatResponse_Error{Error: &conformancev1.ClientErrorResult{Message: "recording client: not executed"}}}
+				internal.WriteDelimitedMessage(os.Stdout, last)
+				written++
+				if written == stopAfter {
+					breakdown()
+				}
 			}(req.TestName)
 		}
 		wg.Wait()
@@ -162,7 +242,13 @@ type c05In struct {
 	MaxServers  int        `json:"maxServers"`
 	ExitDelayMs int        `json:"exitDelayMs"`
 	LatencyMs   int        `json:"latencyMs"`
-	Behaviour   string     `json:"behaviour"` // ok | garbage | nocert (server fault: the early-return paths)
+	Behaviour   string     `json:"behaviour"` // ok | eof (proper servers; eof: reads its input to the end before answering) | garbage | nocert (server fault: the early-return paths)
+	// ExitDelays (if given, instead of ExitDelayMs): the k-th server started takes delay k mod len to stop after SIGTERM
+	ExitDelays []int `json:"exitDelays,omitempty"`
+	// the client breaks down after its ClientStopAfter-th answer: unknown | dup | garbage | exit0 | exit3 ("" = never)
+	ClientStopHow   string `json:"clientStopHow,omitempty"`
+	ClientStopAfter int    `json:"clientStopAfter,omitempty"`
+	Verbose         bool   `json:"verbose,omitempty"` // -v: server instances in sorted order
 }
 type c05Out struct {
 	Perms    []cc.VerifC05Perm `json:"perms"`
@@ -172,6 +258,31 @@ type c05Out struct {
 	Returned bool              `json:"returned"`
 	ElapsedS float64           `json:"elapsedS"`
 	LoadErr  string            `json:"loadErr,omitempty"`
+	// AliveAtReturn: pids of started server processes that were still running at the moment Run returned
+	AliveAtReturn []int `json:"aliveAtReturn"`
+	// Breakdown: the client really broke down (its own log says so)
+	Breakdown bool `json:"breakdown"`
+}
+
+// c05AliveServers: the server processes of this scenario (one log file per pid) that are running
+// right now: /proc/<pid>/cmdline still names this scenario's log directory (a zombie — ended, not yet
+// reaped — has an empty command line and has stopped; a recycled pid names something else).
+func c05AliveServers(dir string) []int {
+	alive := []int{}
+	matches, _ := filepath.Glob(filepath.Join(dir, "srv-*.jsonl"))
+	sort.Strings(matches)
+	for _, m := range matches {
+		base := strings.TrimSuffix(strings.TrimPrefix(filepath.Base(m), "srv-"), ".jsonl")
+		pid, err := strconv.Atoi(base)
+		if err != nil {
+			continue
+		}
+		cmdline, err := os.ReadFile(fmt.Sprintf("/proc/%d/cmdline", pid))
+		if err == nil && bytes.Contains(cmdline, []byte(dir)) && bytes.Contains(cmdline, []byte("c05peer")) {
+			alive = append(alive, pid)
+		}
+	}
+	return alive
 }
 
 var c05Seq atomic.Int64
@@ -244,8 +355,24 @@ func c05Run(c *gen.Ctx, in c05In) c05Out {
 	os.WriteFile(cfgPath, []byte(cfg), 0o644)
 	self, _ := os.Executable()
 	flags := &cc.Flags{ConfigFile: cfgPath, TestFiles: paths, MaxServers: uint(in.MaxServers), Parallelism: 4, ServerBind: "127.0.0.1",
-		RunPatterns: in.Run, SkipPatterns: in.Skip}
+		RunPatterns: in.Run, SkipPatterns: in.Skip, Verbose: in.Verbose}
 	flags.ClientCommand = []string{self, "c05peer", "client", dir, fmt.Sprint(in.LatencyMs)}
+	if in.ClientStopHow != "" {
+		flags.ClientCommand = append(flags.ClientCommand, fmt.Sprint(in.ClientStopAfter), in.ClientStopHow)
+	}
+	delays := fmt.Sprint(in.ExitDelayMs)
+	maxDelay := in.ExitDelayMs
+	if len(in.ExitDelays) > 0 {
+		parts := make([]string, len(in.ExitDelays))
+		maxDelay = 0
+		for i, d := range in.ExitDelays {
+			parts[i] = fmt.Sprint(d)
+			if d > maxDelay {
+				maxDelay = d
+			}
+		}
+		delays = strings.Join(parts, ",")
+	}
 	mode := conformancev1.TestSuite_TEST_MODE_CLIENT
 	serverGRPC := true
 	if in.Mode == "both" {
@@ -253,7 +380,7 @@ func c05Run(c *gen.Ctx, in c05In) c05Out {
 		if beh == "" {
 			beh = "ok"
 		}
-		flags.ServerCommand = []string{self, "c05peer", "server", dir, fmt.Sprint(in.ExitDelayMs), beh}
+		flags.ServerCommand = []string{self, "c05peer", "server", dir, delays, beh}
 		mode = conformancev1.TestSuite_TEST_MODE_UNSPECIFIED
 		serverGRPC = false
 	}
@@ -274,21 +401,37 @@ func c05Run(c *gen.Ctx, in c05In) c05Out {
 	select {
 	case <-done:
 		out.Returned = true
+		// "every started server is stopped, and the run terminates": at the very moment Run returns,
+		// none of the server processes it started may still be running
+		out.AliveAtReturn = c05AliveServers(dir)
 	case <-time.After(90 * time.Second):
+		out.AliveAtReturn = []int{}
 	}
 	out.ElapsedS = time.Since(t0).Seconds()
+	if len(out.AliveAtReturn) > 0 {
+		// do not leak them, and let them write their stop records
+		for deadline := time.Now().Add(time.Duration(maxDelay)*time.Millisecond + 8*time.Second); time.Now().Before(deadline) && len(c05AliveServers(dir)) > 0; {
+			time.Sleep(20 * time.Millisecond)
+		}
+		for _, pid := range c05AliveServers(dir) {
+			syscall.Kill(pid, syscall.SIGKILL)
+		}
+	}
 	if runErr != nil {
 		out.RunErr = runErr.Error()
 		if i := strings.IndexByte(out.RunErr, '\n'); i > 0 {
 			out.RunErr = out.RunErr[:i]
 		}
 	}
-	time.Sleep(time.Duration(in.ExitDelayMs+30) * time.Millisecond) // let asynchronously stopped servers write their stop record
-	out.Requests = c05ReadLogs(dir, "cli")
-	out.Servers = c05ReadLogs(dir, "srv")
-	if out.Requests == nil {
-		out.Requests = []map[string]any{}
+	out.Requests = []map[string]any{}
+	for _, rec := range c05ReadLogs(dir, "cli") {
+		if rec["ev"] == "breakdown" {
+			out.Breakdown = true
+			continue
+		}
+		out.Requests = append(out.Requests, rec)
 	}
+	out.Servers = c05ReadLogs(dir, "srv")
 	if out.Servers == nil {
 		out.Servers = []map[string]any{}
 	}
@@ -296,6 +439,73 @@ func c05Run(c *gen.Ctx, in c05In) c05Out {
 }
 
 // ---- generator ----
+
+// c05FateScenarios: plaintext suites with 3 or 5 server instances of 3 permutations each.
+func c05FateScenarios(c *gen.Ctx) []any {
+	r := c.R
+	suite := []c05Suite{{Name: "F", Tests: []c05Test{{Name: "a/t0", St: 1}, {Name: "a/t1", St: 1}, {Name: "b/t2", St: 1}}}}
+	base := func(five bool, ms int) c05In {
+		in := c05In{Mode: "both", MaxServers: ms, Versions: []int{2}, Protos: []int{1, 2, 3}, Behaviour: "ok", Run: []string{}, Skip: []string{}, Suites: suite}
+		if five {
+			in.Versions = []int{1, 2}
+		}
+		return in
+	}
+	var ins []any
+	add := func(in c05In) {
+		ins = append(ins, in)
+		c.E.Count("fate:" + in.Behaviour + ":" + in.ClientStopHow)
+	}
+	// a client that breaks down while two (three) batches are in flight: the batch whose server
+	// stops first frees a slot, the dispatcher finds the client gone and gives up — while the other
+	// servers are still shutting down
+	stop := func(five bool, ms int, delays []int, how string, after int) c05In {
+		in := base(five, ms)
+		in.ExitDelays, in.ClientStopHow, in.ClientStopAfter = delays, how, after
+		return in
+	}
+	add(stop(true, 2, []int{300, 2000}, "unknown", 2))
+	add(stop(false, 2, []int{2000, 300}, "garbage", 1))
+	add(stop(true, 3, []int{300, 1500, 2500}, "dup", 3))
+	add(stop(false, 2, []int{300, 2000}, gen.Pick(r, []string{"exit0", "exit3"}), 2))
+	add(stop(false, 1, []int{300, 1000}, "unknown", 1)) // a single slot: nothing else is in flight
+	add(stop(true, 4, []int{400, 1200}, "unknown", 0))  // broken before the first request
+	vb := stop(true, 2, []int{300, 2000}, "unknown", r.Range(1, 2))
+	vb.Verbose = true
+	add(vb)
+	// servers that read their input to its end before they answer, through the whole Run
+	eof := base(true, 2)
+	eof.Behaviour, eof.ExitDelayMs = "eof", 20
+	add(eof)
+	eofTLS := c05In{Mode: "both", MaxServers: gen.Pick(r, []int{1, 4}), ExitDelayMs: 0, Versions: []int{1, 2}, Protos: []int{1, 3}, TLS: true, Certs: true, Behaviour: "eof",
+		Run: []string{}, Skip: []string{"**/a/t1"}, Suites: []c05Suite{{Name: "P", Tests: suite[0].Tests}, {Name: "T", TLS: true, Certs: true, Tests: suite[0].Tests[:2]}}}
+	add(eofTLS)
+	eofStop := stop(false, 2, []int{300, 1500}, "unknown", 2)
+	eofStop.Behaviour = "eof"
+	add(eofStop)
+	n := 0
+	if c.Thorough() {
+		n = 40
+	}
+	for i := 0; i < n; i++ {
+		ms := r.Range(1, 4)
+		in := stop(r.Bool(), ms, [][]int{{300, 2000}, {2000, 300}, {100, 900, 1800}, {0, 1500}, {700}}[r.Intn(5)],
+			gen.Pick(r, []string{"unknown", "unknown", "garbage", "dup", "exit0", "exit3"}), r.Range(0, 10))
+		in.LatencyMs = gen.Pick(r, []int{0, 0, 2, 10})
+		in.Verbose = r.Bool()
+		if in.ClientStopHow == "dup" && in.ClientStopAfter == 0 {
+			in.ClientStopAfter = 1
+		}
+		if r.Chance(1, 3) {
+			in.Behaviour = "eof"
+		}
+		if r.Chance(1, 4) {
+			in.Run = []string{gen.Pick(r, []string{"**/a/*", "**/t0", "**/Protocol:PROTOCOL_GRPC/**"})}
+		}
+		add(in)
+	}
+	return ins
+}
 
 func runC05(c *gen.Ctx) error {
 	r := c.R
@@ -409,6 +619,13 @@ func runC05(c *gen.Ctx) error {
 		ins = append(ins, c05In{Mode: "both", MaxServers: 1, ExitDelayMs: 150, Versions: []int{1, 2}, Protos: []int{1, 2, 3}, TLS: true, Behaviour: beh,
 			Run: []string{}, Skip: []string{}, Suites: []c05Suite{{Name: "S0", Tests: []c05Test{{Name: "a/t0", St: 1}, {Name: "a/t1", St: 3}}}}})
 	}
+	// process fates (op "fate"): the handshake with servers that read their input to its end, and a
+	// client that breaks down mid-run while several batches are in flight whose servers need different
+	// times to stop — when Run returns, no server it started may still be running
+	c.DoParallel("handshake", c05HandshakeScenarios(c), 4)
+	fates := c05FateScenarios(c)
+	workers := 4
+	c.DoParallel("fate", fates, workers)
 	c.DoParallel("run", ins, 4)
 	// a real server process that ignores SIGTERM must still be stopped (killed) before the batch
 	// returns its --max-servers slot
